@@ -19,6 +19,14 @@ Proof.
   pose proof (N.div_mod x g ltac:(lia)). pose proof (N.mod_lt x g ltac:(lia)). nia.
 Qed.
 
+(** two floors: a <= b implies floor(a/sg) <= floor(b/sg) (direct, nia is slow in the large contexts below) *)
+Lemma floor_mono sg a b ka kb : 0 < sg -> kb * sg <= a -> a <= b -> b < ka * sg + sg -> kb <= ka.
+Proof.
+  intros Hg H1 H2 H3. destruct (N.le_gt_cases kb ka) as [L|G]; [exact L|exfalso].
+  assert ((ka + 1) * sg <= kb * sg) by (apply N.mul_le_mono_r; lia).
+  rewrite N.mul_add_distr_r, N.mul_1_l in H. lia.
+Qed.
+
 Lemma shift_le sg ka kb x rd : kb <= ka -> kb * sg + (ka - kb + x) * sg <= rd -> ka * sg + x * sg <= rd.
 Proof. intros H1 H2. replace (ka * sg + x * sg) with (kb * sg + (ka - kb + x) * sg); [exact H2|nia]. Qed.
 
@@ -154,7 +162,7 @@ Proof.
   rewrite Hsub.
   destruct (floor_mult sg (wr + dg) gs) as [ka [Hka [Hka1 Hka2]]].
   unfold buf_move. rewrite bg. destruct (sg =? 0) eqn:Zs; [lia|]. rewrite Hka, bo, Hkb.
-  assert (Hkab : kb <= ka) by nia.
+  assert (Hkab : kb <= ka) by (apply (floor_mono sg wr (wr + dg) ka kb gs Hkb1 ltac:(lia) Hka2)).
   destruct (mult_of dg wr gd wr2) as [kw Hkw].
   (* the new buffer, in both cases *)
   assert (NEW : forall bf,
@@ -164,10 +172,10 @@ Proof.
     b_gran bf = sg /\ b_off bf = ka * sg /\
     (forall j c, nth_error (b_chunks bf) j = Some c -> nth_error (b_chunks (d_buf d)) (N.to_nat (ka - kb) + j) = Some c)).
   { intros bf ->. destruct (ka * sg <=? kb * sg) eqn:Le.
-    - assert (ka = kb) by nia. subst ka. split; [exact bg|split; [rewrite bo, Hkb; reflexivity|]].
+    - assert (ka = kb) by (apply N.leb_le in Le; apply N.mul_le_mono_pos_r in Le; [lia|exact gs]). subst ka. split; [exact bg|split; [rewrite bo, Hkb; reflexivity|]].
       intros j c Hj. replace (N.to_nat (kb - kb)) with 0%nat by lia. exact Hj.
     - cbn [b_gran b_off b_chunks]. split; [reflexivity|split; [reflexivity|]].
-      replace (ka * sg - kb * sg) with ((ka - kb) * sg) by nia. rewrite (mult_div sg _ gs).
+      replace (ka * sg - kb * sg) with ((ka - kb) * sg) by (rewrite N.mul_sub_distr_r; reflexivity). rewrite (mult_div sg _ gs).
       destruct (N.of_nat (length (b_chunks (d_buf d))) <? ka - kb); intros j c Hj; [destruct j; discriminate|].
       rewrite nth_error_skipn' in Hj. exact Hj. }
   rewrite if_ret. intro E. injection E as <- <-.
